@@ -296,6 +296,8 @@ def run(ctx):
     ctx.check_proof("RootLoop_proofs")         # the same invariants for every iteration budget
     from vlib import resulthistory
     resulthistory.replay(ctx, ["rootfinder:broyden1", "rootfinder:newton", "equilibrium:anderson", "minimize:gd", "minimize:adam"], "rootloop")
+    from vlib import layoutinv
+    layoutinv.replay(ctx, ["rootfinder:broyden1", "rootfinder:newton", "equilibrium:anderson", "minimize:gd", "minimize:adam"], "rootloop")
     ctx.check_coverage(r, ["NlStart", "NlIter", "NlExhaust", "NlReturn", "AaStart", "AaIter", "AaExhaust", "AaReturn", "OptStart", "OptIter", "OptExhaust", "OptReturn"])
     for sw, inv in (("ReturnTested", None), ("ZeroResidualStops", "NoRaiseAtRoot"), ("EarlyFixedPoint", "SilentMeetsTol"),
                     ("WarnIffNotConverged", "WarnedIffNotConverged")):
